@@ -361,6 +361,10 @@ def r7(run, db):
                     inner = wf.origins(r["a"])
                     if any(x["k"] == "call" and x["call"].bb == iw[0].bb for x in inner):
                         okg = True
+        # ... or the decision is taken on the is_working() == false edge (and recorded, e.g. as an enum value matched later)
+        fe_ = false_edge(wf, iw[0])
+        if not okg and fe_ and wf.edge_dominates(fe_, stops[0].site):
+            okg = True
         run.check(okg, "finished|retire-only-if-not-working", "a draining worker is stopped only when `!worker.is_working()` (nothing in flight, nothing queued)",
                   "the retire decision is not `!is_working()`: a draining worker can be stopped while a just-dispatched job is in flight (the job is lost)", stops[0].where())
     if route:
@@ -372,6 +376,25 @@ def r7(run, db):
                     fe = wf.edge_of(site, "false")
                     if fe and wf.edge_dominates(fe, route[0].site):
                         dr.append(site)
+        if not dr:
+            # the decision recorded in a value: every path to the routing call took the not-draining edge of a test on the
+            # worker's draining flag, or the worker-unknown edge (no such pool entry)
+            cand = []
+            for site, t in wf.switches():
+                if t["dty"] == "bool":
+                    roots = wf.origins(t["discr"])
+                    neg = any(r["k"] == "un" and r.get("op") == "Not" for r in roots)
+                    rr = roots + [x for r in roots if r["k"] == "un" for x in wf.origins(r["a"])]
+                    if any(any(proj_field_name(e) == fields(db).wp_draining for e in r.get("proj", []) + r.get("trail", []) if e.startswith("f:")) for r in rr):
+                        e_ = wf.edge_of(site, "true" if neg else "false")
+                        if e_:
+                            cand.append(e_)
+                else:
+                    info = wf.switch_info(site)
+                    if info.get("kind") == "enum" and "None" in info["edges"] and "disc_place" in info and any(r["k"] == "call" and r["call"].matches(r"HashMap::<K, V, S, A>::get(_mut)?$") for r in wf.origins(info["disc_place"])):
+                        cand.append((site.bb, info["edges"]["None"]))
+            if cand and wf.edges_dominate(cand, route[0].site):
+                dr = cand
         run.check(bool(dr), "finished|route-only-if-not-draining", "more work is routed to the finishing worker only on the not-draining edge", "a draining worker is given more work", route[0].where())
 
 
